@@ -83,7 +83,14 @@ fn evolution_attr(rec: &RecordDecl) -> String {
             Step::MadeTransient(n) => format!("FieldMadeTransient(\"{n}\")"),
         })
         .collect();
-    format!("#[evolution({})]\n", parts.join(", "))
+    // a history may be spread over several #[evolution] attributes: the macro concatenates them in order
+    let h = refmodel::rng::fnv64_str(&rec.name);
+    if parts.len() >= 2 && h % 3 == 0 {
+        let cut = 1 + (h / 3) as usize % (parts.len() - 1);
+        format!("#[evolution({})]\n#[evolution({})]\n", parts[..cut].join(", "), parts[cut..].join(", "))
+    } else {
+        format!("#[evolution({})]\n", parts.join(", "))
+    }
 }
 
 fn field_lines(rec: &RecordDecl, named: bool, vis: &str) -> String {
@@ -386,7 +393,12 @@ pub fn gen_plain_struct(rng: &mut Rng, name: &str, declared: &[Declared]) -> (Re
     (RecordDecl { name: name.to_string(), fields, steps: vec![] }, tags)
 }
 
-const VARIANT_NAMES: [&str; 12] = ["Alpha", "Beta", "Gamma", "Delta", "Eps", "Zeta", "Eta", "Theta", "Iota", "Kappa", "Lambda", "Mu"];
+// includes names whose byte order and case-insensitive order disagree (IOError < Id < Init in byte order, AB < Aa, SetValue < Settings,
+// URLChanged < Updated): #[sorted_constructors] sorts by the plain identifier string
+const VARIANT_NAMES: [&str; 20] = [
+    "Alpha", "Beta", "Gamma", "Delta", "Eps", "Zeta", "Eta", "Theta", "Iota", "Kappa", "Lambda", "Mu", "IOError", "Id", "Init", "AB", "Aa", "SetValue", "Settings",
+    "URLChanged",
+];
 
 pub fn gen_variant(rng: &mut Rng, vname: &str, declared: &[Declared], self_name: Option<&str>, tags: &mut Vec<String>, force_nonrecursive: bool) -> VariantDecl {
     let kind = match rng.below(3) {
@@ -474,6 +486,10 @@ pub fn history_pool() -> Vec<&'static str> {
         "i128",
         "[u16; 2]",
         "BTreeSet<i8>",
+        // encodings that end in a multi-byte varint (a chunk boundary inside a varint is a framing error)
+        "NaiveTime",
+        "FixedOffset",
+        "Vec<NaiveTime>",
     ]
 }
 
